@@ -259,6 +259,31 @@ TForeign ==
   /\ batches' = IF Ev.rows = <<>> THEN <<>> ELSE <<Ev.rows>>
   /\ UNCHANGED <<caseId, schema, cols, maxPage, codecN, recs, snk, wc, faultK, rowsTab>>
 
+\* introspection calls (C16): the library's view of a file versus the independent decode
+ChunkPages(e, k) ==   \* independent pages lying inside the k-th chunk (footer order), by offset
+  LET chunks == Concat([g \in 1..Len(e.imeta.rgs) |-> e.imeta.rgs[g].cols])
+      ch == chunks[k] IN
+  SelectSeq([i \in 1..Len(e.ipages) |-> [off |-> e.ioffs[i], h |-> e.ipages[i]]],
+            LAMBDA x : x.off >= ch.dpo /\ x.off < ch.dpo + ch.tc)
+TIntro ==
+  /\ More /\ Ev.ev = "Intro"
+  /\ l' = l + 1
+  /\ Chk("C16", "NoPanic", Ev.panic = "")
+  /\ Chk("C16", "CallsSucceed", Ev.panic = "" => (Ev.metaerr = "" /\ Ev.hdrerr = ""))
+  /\ Chk("C16", "FooterEqualsIndependentDecode", (Ev.panic = "" /\ Ev.metaerr = "") => Ev.meta = Ev.imeta)
+  /\ Chk("C16", "OneHeaderPerPageInFileOrder", (Ev.panic = "" /\ Ev.metaerr = "" /\ Ev.hdrerr = "") => Ev.hdrs = Ev.ipages)
+  /\ Chk("C16", "HeadersFromChunkOffsets",
+         (Ev.panic = "" /\ Ev.metaerr = "") =>
+           \A k \in 1..Len(Ev.atchunk) :
+              /\ Ev.atchunk[k].err = ""
+              /\ Ev.atchunk[k].hdrs = [i \in 1..Len(ChunkPages(Ev, k)) |-> ChunkPages(Ev, k)[i].h])
+  /\ Chk("C16", "HeadersFromPageOffsets",
+         (Ev.panic = "" /\ Ev.metaerr = "") =>
+           \A k \in 1..Len(Ev.atpage) : Ev.atpage[k].err = "" /\ Ev.atpage[k].hdrs = Ev.atpage[k].want)
+  \* the independent walk itself agrees with what the writer was observed to emit
+  /\ Chk("HARNESS", "WalkMatchesSink", Len(Ev.ipages) = Cardinality(HdrIdxOf(snk)))
+  /\ UNCHANGED <<caseId, schema, cols, maxPage, codecN, recs, batches, snk, wc, faultK, rowsTab>>
+
 TRows ==
   /\ More /\ Ev.ev = "Rows"
   /\ l' = l + 1
@@ -281,14 +306,14 @@ TSinkCall ==
 
 \* ---------------------------------------------------------------- other lines
 TOther ==
-  /\ More /\ Ev.ev \notin {"Reset", "New", "Add", "Write", "Close", "Read", "Rows", "Foreign", "SinkRun", "SinkCall"}
+  /\ More /\ Ev.ev \notin {"Reset", "New", "Add", "Write", "Close", "Read", "Rows", "Foreign", "Intro", "SinkRun", "SinkCall"}
   /\ l' = l + 1
   /\ Chk("HARNESS", "DriverPanic", Ev.ev # "DriverPanic")
   /\ UNCHANGED <<caseId, schema, cols, maxPage, codecN, recs, batches, snk, wc, faultK, rowsTab>>
 
 TDone == /\ l = Len(Trace) + 1 /\ PrintT(<<"TRACEDONE", Len(Trace)>>) /\ UNCHANGED vars
 
-Next == TReset \/ TNew \/ TAdd \/ TWrite \/ TClose \/ TRead \/ TRows \/ TForeign \/ TSinkRun \/ TSinkCall \/ TOther \/ TDone
+Next == TReset \/ TNew \/ TAdd \/ TWrite \/ TClose \/ TRead \/ TRows \/ TForeign \/ TIntro \/ TSinkRun \/ TSinkCall \/ TOther \/ TDone
 Spec == Init /\ [][Next]_vars
 
 \* every line was consumed: one state per line plus the initial state
